@@ -243,7 +243,10 @@ impl World {
         let mut parts = Vec::new();
         for h in 0..NHASH {
             let ph = phash(h);
-            let inv = st.invoices.get(&ph).map(|i| i.amount_msat.to_string()).unwrap_or_else(|| "-".into());
+            let mut inv = st.invoices.get(&ph).map(|i| i.amount_msat.to_string()).unwrap_or_else(|| "-".into());
+            if let Some(i) = st.issued_invoices.get(&ph) {
+                inv = format!("{}+i{}", inv, i.amount_msat);
+            }
             let pay = match st.payments.get(&ph) {
                 None => "-".to_string(),
                 Some(p) => {
@@ -492,6 +495,7 @@ impl Group for C06Node {
          (phase-2 and, for a third of the requests, phase-1) counterparty-commitment signing, holder-commitment validation and revocation per channel with diverging holder/counterparty \
          views, multi-part splits over channels, add/remove, retries, approvals through the approver of vls-protocol-signer (handle_proposed_keysend / handle_proposed_invoice, PositiveApprover and now and then NegativeApprover) into add_keysend and add_invoice (real signed BOLT-11; duplicates, different invoice for the same hash, u64 extremes), \
          a third of the worlds under a finite hourly node-wide velocity limit (refused approvals followed by HTLCs for the hash and by retried approvals), \
+         invoices ISSUED by the node itself (sign_bolt11_invoice) followed by a node-state write, a restart and an unbacked HTLC for the hash, \
          preimages, heartbeat pruning under a manual clock, restarts through the real persister; a case is non-trivial when it \
          contains an accepted commitment request carrying HTLCs and a refused commitment request"
     }
@@ -567,6 +571,10 @@ impl Group for C06Node {
             // an unfulfilled keysend past its prune time stays approved while its HTLC is in flight: the repeat is a repeat,
             // a second payment on another channel is refused; after the HTLC left, the heartbeat prunes it
             split(&format!("init 2|keysend 0 100000000 {t}|cpsign 0 new - 0:100000:500|heartbeat {}|keysend 0 100000000 {}|cpsign 1 new - 0:100000:500|restart|heartbeat {}|cpsign 1 new - 0:100000:500 p1|cprevoke 0|cpsign 0 new - -|heartbeat {}|cpsign 1 new - 0:600:500", t + 61, t + 61, t + 62, t + 63)),
+            // an invoice the node ISSUED backs nothing: the outgoing HTLC for its hash is refused before the restart, after the
+            // node state was written and the node restarted, on both kinds of commitment and entry point; the issued invoice
+            // is persisted with the next node-state write, pruned a day after its expiry, a different one for the hash is an error
+            split(&format!("init 2|issue 2 50000000 {t} 3600 0|cpsign 0 new - 2:10000:500|issue 2 50000000 {t} 3600 0|issue 2 60000000 {t} 3600 1|issue 1 0 {t} 3600 0|restart|issue 2 50000000 {t} 3600 0|keysend 0 1000 {t}|restart|cpsign 0 new - 2:10000:500|hval 1 new 2:10000:500 - p1|cpsign 1 new - 2:10000:500 p1|hval 0 new - 2:10000:600|revoke 0|cpsign 0 new 2:10000:600 2:10000:500|heartbeat {}|restart|heartbeat {}|restart|cprevoke 0|cpsign 0 new - -|hval 0 new - -|revoke 0|heartbeat {}|cpsign 1 new - 2:10000:500", t + 90_000, t + 90_001, t + 90_002)),
             // u64 extreme approval: a + max_routing_fee overflows
             split(&format!("init 2|keysend 0 18446744073709551615 {t}|cpsign 0 new - 0:2000:500|cpsign 1 new - -")),
         ]
@@ -629,6 +637,29 @@ impl Group for C06Node {
             ops.push(format!("revoke {}", a));
             sims[a].cp_out.push((h, va, 500));
             ops.push(sims[a].cpsign(a, "new"));
+        }
+        if rng.chance(1, 6) {
+            // the node issues an invoice for a hash; later — typically after the node state was written and the node
+            // restarted — somebody proposes an outgoing HTLC for that hash without any approval or incoming value
+            let h = rng.below(NHASH as u64) as usize;
+            ops.push(format!("issue {} {} {} 3600 {}", h, *rng.pick(&[50_000_000u64, 1_000, 0]), now, rng.below(2)));
+            if rng.chance(3, 4) {
+                let other = (h + 1 + rng.below(NHASH as u64 - 1) as usize) % NHASH;
+                ops.push(format!("keysend {} {} {}", other, *rng.pick(&[1_000u64, 100_000_000]), now));
+            }
+            if rng.chance(3, 4) {
+                ops.push("restart".into());
+            }
+            let c = rng.below(nch as u64) as usize;
+            let v = *rng.pick(&[10_000u64, 600, 50_000]);
+            if rng.chance(1, 2) {
+                sims[c].cp_out.push((h, v, 500));
+                ops.push(sims[c].cpsign(c, "new"));
+            } else {
+                sims[c].h_out.push((h, v, 500));
+                ops.push(sims[c].hval(c, "new"));
+                ops.push(format!("revoke {}", c));
+            }
         }
         if rng.chance(1, 8) {
             // a routed payment A -> B whose incoming part is removed first (tolerated), a heartbeat, then more outgoing value
@@ -794,7 +825,8 @@ impl Group for C06Node {
                     }
                     ops.push(s.hval(c, "retry"));
                 }
-                86..=89 => ops.push(format!("fulfill {} {}", c, rng.below(NHASH as u64))),
+                86..=88 => ops.push(format!("fulfill {} {}", c, rng.below(NHASH as u64))),
+                89 => ops.push(format!("issue {} {} {} 3600 {}", rng.below(NHASH as u64), *rng.pick(&[50_000_000u64, 2_000_000, 0]), now, rng.below(2))),
                 90..=93 => {
                     now += *rng.pick(&[0u64, 30, 60, 61, 100]);
                     ops.push(format!("heartbeat {}", now));
@@ -1143,6 +1175,31 @@ fn exec_op(w: &mut World, t: &[&str], at: usize, co: &mut CaseOut) -> Option<(St
                 },
                 had,
             ))
+        }
+        ["issue", h, amt, now, expiry, tag] => {
+            // the node ISSUES an invoice of its own (receiving side): sign_bolt11_invoice on a raw BOLT-11 invoice.
+            // The harness's book ignores it: it is neither an approval nor an HTLC seen.
+            use lightning_signer::lightning::types::payment::PaymentSecret;
+            use lightning_signer::lightning_invoice::{Currency, InvoiceBuilder};
+            let h: usize = h.parse().ok()?;
+            let amt: u64 = amt.parse().ok()?;
+            let now: u64 = now.parse().ok()?;
+            let expiry: u64 = expiry.parse().ok()?;
+            let tag: u64 = tag.parse().ok()?;
+            let h = h % NHASH;
+            w.clock.set(Duration::from_secs(now));
+            let raw = InvoiceBuilder::new(Currency::BitcoinTestnet)
+                .description(format!("issued{}", tag))
+                .payment_hash(Sha256Hash::from_byte_array(phash(h).0))
+                .payment_secret(PaymentSecret([h as u8 + 0x11; 32]))
+                .duration_since_epoch(Duration::from_secs(now))
+                .expiry_time(Duration::from_secs(expiry))
+                .min_final_cltv_expiry_delta(144)
+                .amount_milli_satoshis(amt)
+                .build_raw()
+                .ok()?;
+            let r = w.ctx.node.sign_bolt11_invoice(raw);
+            Some((if r.is_ok() { "ok".into() } else { "err".into() }, false))
         }
         ["cprevoke", c] => {
             let c: usize = c.parse().ok()?;
